@@ -99,6 +99,8 @@ def build_all(jobs=None):
             if not os.path.exists(os.path.join(COQ, 'theories', 'Model', 'Tables.v')):
                 return info
         info.tables_changed = 'rewritten' in out
+        for m in re.finditer(r'TRANSLATION-PARTIAL: (.*)', out):
+            info.translator_failures['translate-tables-partial'] = m.group(1)[:400]
         # Classes / rule sets translated from the Python AST into small DSLs
         # (fail-closed translators; DESIGN 3.3).  A translator that gives up
         # (unsupported shape) does NOT make the build fail: the generated file
